@@ -16,7 +16,8 @@
    Only statements, `exact`, and Print Assumptions live here. *)
 From Coq Require Import List NArith ZArith.
 From AnyTLS Require Import Bytes Cmd Generated Frame Reader Session FrameProofs ReaderProofs
-  SessTable SessHandle SessRecv SessPipe SessEnd SessionLegacy Text Padding PaddingProofs PipePadded.
+  SessTable SessHandle SessRecv SessPipe SessEnd SessionLegacy Text Padding PaddingProofs PipePadded
+  Relay RelayProofs.
 Import ListNotations.
 Import Sess.
 Open Scope N_scope.
@@ -179,4 +180,81 @@ Proof.
   split; [vm_compute; reflexivity|].
   split; [unfold caps_pos; repeat constructor|].
   split; vm_compute; reflexivity.
+Qed.
+
+(* ---------------------------------------------------------------- the relays at the two ends of a tunnel
+   (Model/Relay.v: the six copy loops of server/handler.rs, client/socks5.rs, client/http_proxy.rs).
+   A loop with a buffer of ANY size, whatever earlier iterations left in it, hands its sink exactly the chunks it
+   read, whole and in order, up to the first end of input / read error / refused write *)
+Theorem C01_relay_exact : forall cap es, relay cap es = relay_spec es.
+Proof. exact relay_exact. Qed.
+Print Assumptions C01_relay_exact.
+
+Theorem C01_relay_prefix_and_complete : forall es,
+  (exists rest, concat (relay_spec es) ++ rest = source_bytes es) /\
+  (ran_to_eof es = true -> concat (relay_spec es) = source_bytes es) /\
+  Forall (fun c => c <> []) (relay_spec es).
+Proof. intros es. exact (conj (relay_spec_prefix es) (conj (relay_spec_complete es) (relay_spec_nonempty es))). Qed.
+Print Assumptions C01_relay_prefix_and_complete.
+
+(* a chunk handed to write_data_frame / send_data by a relay never exceeds the relay's buffer *)
+Theorem C01_relay_chunks_fit : forall cap es, reads_fit cap es ->
+  Forall (fun c => lenN c <= cap) (relay cap es) /\ lenN (lbuf (lp_run (lp_init cap) es)) = cap.
+Proof. intros cap es H. rewrite relay_exact. exact (conj (relay_spec_fit cap es H) (relay_buffer_bounded cap es H)). Qed.
+Print Assumptions C01_relay_chunks_fit.
+
+(* Stream::send_data + the forwarding task: the queued chunks become the same submissions in the same order *)
+Theorem C01_forwarding_task_submits_queue : forall st, s_closed st = false ->
+  snd (pump_all st) = run_wops st (wops_of_queue (sendq st)).
+Proof. exact forwarding_task_submits_queue. Qed.
+Print Assumptions C01_forwarding_task_submits_queue.
+
+Theorem C01_relay_submissions : forall b ops cs, merge_ok b cs ops -> written b ops = concat cs.
+Proof. exact written_of_merge. Qed.
+Print Assumptions C01_relay_submissions.
+
+(* END TO END, either direction: source --relay(es1)--> submissions of stream b --[session pipe: any padded
+   wire, any fragmentation, any read schedule with capacities > 0]--> reader of b --relay(write results ws)-->
+   sink.  Whatever the sink has received is a prefix of what the source produced ... *)
+Theorem C01_tunnel_prefix : forall capC capS es1 ws cR stR b s w gs ops stS wops rest,
+  written b wops = concat (relay capC es1) ->
+  s_closed stS = false ->
+  decode_all w = (gs, []) ->
+  filter not_padding gs = sent_frames (run_wops stS wops) ->
+  quiet_for cR b (sent_frames (run_wops stS wops)) ->
+  cfg_ok cR -> wf_sess stR -> s_closed stR = false -> dead stR = false ->
+  lookup b (tbl stR) = Some s -> rd s = rd_init ->
+  concat (recv_chunks ops) ++ rest = w -> caps_pos ops ->
+  let '(_, _, lg) := run_rops cR stR [] ops in
+  exists missing, to_target capS b (length (only b (gone stR))) lg ws ++ missing = source_bytes es1.
+Proof. exact tunnel_upload_prefix. Qed.
+Print Assumptions C01_tunnel_prefix.
+
+(* ... and once the source has ended, the whole wire has arrived and the reader has drained its queue, a sink
+   that accepted every write has received all of it *)
+Theorem C01_tunnel_complete : forall capC capS es1 cR stR b s w gs ops stS wops,
+  written b wops = concat (relay capC es1) -> ran_to_eof es1 = true ->
+  s_closed stS = false ->
+  decode_all w = (gs, []) ->
+  filter not_padding gs = sent_frames (run_wops stS wops) ->
+  quiet_for cR b (sent_frames (run_wops stS wops)) ->
+  cfg_ok cR -> wf_sess stR -> s_closed stR = false -> dead stR = false ->
+  lookup b (tbl stR) = Some s -> rd s = rd_init ->
+  concat (recv_chunks ops) = w -> caps_pos ops ->
+  let '(stR', _, lg) := run_rops cR stR [] ops in
+  forall s', lookup b (tbl stR') = Some s' -> rd_pending_bytes (rd s') = [] ->
+  to_target capS b (length (only b (gone stR))) lg [] = source_bytes es1.
+Proof. exact tunnel_upload_complete. Qed.
+Print Assumptions C01_tunnel_complete.
+
+(* non-vacuity of the relay statements: a 4-byte buffer, a long read, then a short one over the stale tail, a
+   refused write: the sink got [1;2;3;4] and [5] -- not [5;2;3;4] -- and nothing after the refusal *)
+Example C01_relay_nonvacuous :
+  let es := [(GotN [1; 2; 3; 4], WrOk); (GotN [5], WrOk); (GotN [6; 7], WrErr); (GotN [8], WrOk)] in
+  relay 4 es = [[1; 2; 3; 4]; [5]] /\ lbuf (lp_run (lp_init 4) es) = [6; 7; 3; 4] /\
+  source_bytes es = [1; 2; 3; 4; 5; 6; 7; 8] /\ reads_fit 4 es /\
+  ran_to_eof [(GotN [1], WrOk); (GotEof, WrOk)] = true.
+Proof.
+  cbv zeta. split; [vm_compute; reflexivity|]. split; [vm_compute; reflexivity|]. split; [reflexivity|].
+  split; [|reflexivity]. unfold reads_fit. repeat constructor; vm_compute; discriminate.
 Qed.
